@@ -42,8 +42,8 @@ def run(tier, seed, replay=None):
         if want is not None and (m.ok or m.invariant != want):
             raise Inconclusive("LiveSql_MC_%s no longer violates %s (vacuity guard)" % (cfg, want))
     v = vlib.Verdict(PROP)
-    nscen = 80 if quick else 800
-    chunks = 2 if quick else 8
+    nscen = 80 if quick else 1600
+    chunks = 2 if quick else 16
     accepted = total = nevents = 0
     kinds = {}
     samples = []
